@@ -172,6 +172,29 @@ def declared_pass(task):
                 msgs.append(f"{fam}({a}): objective at the declared optimum point {pt.tolist()} is {v!r}, declared {val!r}"
                             + (f" (re-evaluated after {fam}({arg}) was constructed)" if again else
                                f" (members constructed in the order {args[:3]}...)"))
+            elif len(pt) >= 2 and not again:
+                # the same object evaluated at points that share coordinates with the declared point (its coordinates
+                # rotated, one of them replaced by the box centre), then at the declared point again: same value
+                lo_, up_ = bench.bounds(q)
+                mid = (lo_ + up_) / 2
+                primes = [np.roll(pt, 1)]
+                for ax in range(len(pt)):
+                    pr = np.roll(pt, 1).copy()
+                    pr[ax] = mid[ax]
+                    primes.append(pr)
+                for pr in primes:
+                    if np.all(pr >= lo_) and np.all(pr <= up_):
+                        try:
+                            bench.evaluator(q)(pr)
+                            v2 = bench.evaluator(q)(pt)
+                        except Exception as e:
+                            msgs.append(f"{fam}({a}): Calculate raised {type(e).__name__}: {e}")
+                            break
+                        evals += 2
+                        if v2 != v:
+                            msgs.append(f"{fam}({a}): objective at the declared optimum point {pt.tolist()} is {v2!r} after an "
+                                        f"evaluation at {pr.tolist()}, it was {v!r} before (declared {val!r})")
+                            break
         prev = (p, arg)
         if len(msgs) > 4:
             break
